@@ -13,7 +13,6 @@ package c15
 
 import (
 	"fmt"
-	"math"
 	"strings"
 	"sync/atomic"
 	"testing"
@@ -208,66 +207,29 @@ func wireParams(ps []sqllex.Param) []rawclient.Param {
 	return out
 }
 
-// relaxations of the known findings; each is as narrow as its root cause.
-func altNonFiniteOrZeroTime(used *[]string) sqllex.Alt {
-	return func(k int, p sqllex.Param, gt []sqllex.Token, j int) int {
-		if j >= len(gt) {
-			return 0
-		}
-		if p.NonFinite() {
-			// fmt's rendering of a non-finite float: NaN, +Inf, -Inf
-			f := p.FloatValue()
-			if math.IsNaN(f) && gt[j].Kind == sqllex.Word && gt[j].Text == "NaN" {
-				*used = append(*used, "C15-F2")
-				return 1
-			}
-			if j+1 < len(gt) && gt[j].Kind == sqllex.Op && gt[j+1].Kind == sqllex.Word && gt[j+1].Text == "Inf" &&
-				(math.IsInf(f, 1) && gt[j].Text == "+" || math.IsInf(f, -1) && gt[j].Text == "-") {
-				*used = append(*used, "C15-F2")
-				return 2
-			}
-		}
-		if p.Kind == "time" && p.Len == 0 && gt[j].Kind == sqllex.Str && string(gt[j].Val) == "0000-00-00" {
-			*used = append(*used, "C15-F3")
-			return 1
-		}
-		return 0
-	}
-}
-
-func hasQuoteOrBackslash(ps []sqllex.Param) bool {
-	for _, p := range ps {
-		if p.Kind == "str" && strings.ContainsAny(string(p.Bytes), "'\\") {
-			return true
-		}
-	}
-	return false
-}
-
 // judge compares one executed statement with the template; it returns a known
 // finding id (with detail) or a violation, both empty when the statement is right.
-func judge(template, got, modeText string, params []sqllex.Param) (known, detail string) {
+//
+// C15-F4 is the only open finding: in a multi-statement session the rewritten
+// text passes parser.SplitStatementToPieces, whose scanner always reads
+// backslash escapes; with NO_BACKSLASH_ESCAPES in force it misjudges where a
+// literal ends and cuts the statement at a ';' inside a bound string. The
+// classifier accepts exactly that: multi-statement session, the mode in force on
+// the backend connection, and a text that is the template up to one string
+// parameter (earlier values right) followed by the correct rendering of that
+// value up to one of its ';'. (C15-F1/F2/F3 are fixed: their recurrence is a
+// plain violation.)
+func judge(template, got, modeText string, params []sqllex.Param, multi bool) (known, detail string) {
 	m := sqllex.ParseMode(modeText)
 	r := sqllex.Match(template, got, m, params, nil)
 	if r.OK {
 		return "", ""
 	}
 	base := fmt.Sprintf("sql_mode in force on the backend connection %q; template %q; backend received %q: %s", modeText, template, got, r.Detail)
-	var used []string
-	if r2 := sqllex.Match(template, got, m, params, altNonFiniteOrZeroTime(&used)); r2.OK && len(used) > 0 {
-		return used[0], base
-	}
-	if m.NoBackslashEscapes && hasQuoteOrBackslash(params) {
-		// root cause F1: the text is right for a server that recognises backslash
-		// escapes and wrong only because NO_BACKSLASH_ESCAPES is in force
-		m2 := m
-		m2.NoBackslashEscapes = false
-		used = nil
-		r3 := sqllex.Match(template, got, m2, params, altNonFiniteOrZeroTime(&used))
-		if r3.OK {
-			return "C15-F1", base
+	if multi && m.NoBackslashEscapes {
+		if ok, k, at := sqllex.CutInsideValue(template, got, m, params); ok {
+			return "C15-F4", fmt.Sprintf("%s | the text ends at the ';' at offset %d of the value bound to placeholder %d (multi-statement session)", base, at, k)
 		}
-		base += " | not explained by the known escaping defect, read with backslash escapes: " + r3.Detail
 	}
 	return "", base
 }
@@ -291,7 +253,6 @@ func checkCase(c c15Case) (o pbt.Outcome) {
 	if c.Multi {
 		label("multi_statement_session")
 	}
-	var known, knownWhat string
 	for si, s := range c.Steps {
 		doSet := func() bool {
 			if s.Set == "" {
@@ -376,7 +337,7 @@ func checkCase(c c15Case) (o pbt.Outcome) {
 					o.NonTrivial = true
 				}
 			}
-			k, detail := judge(s.Template, ev.SQL, modeText, s.Params)
+			k, detail := judge(s.Template, ev.SQL, modeText, s.Params, c.Multi)
 			if detail == "" {
 				continue
 			}
@@ -384,17 +345,18 @@ func checkCase(c c15Case) (o pbt.Outcome) {
 				o.Violation = fmt.Sprintf("step %d: %s", si, detail)
 				return
 			}
-			if known == "" {
-				known, knownWhat = k, fmt.Sprintf("step %d: %s", si, detail)
-			}
 			label("known_" + k)
+			// the remaining pieces were run as statements of their own and answered separately:
+			// the session is out of step with the client, nothing more can be observed
+			o.Known, o.KnownWhat = k, fmt.Sprintf("step %d: %s", si, detail)
+			return
 		}
 		if err != nil {
 			break // session is gone
 		}
 		e.Conn.StmtClose(st.ID)
 	}
-	o.Known, o.KnownWhat = known, knownWhat
+
 	return
 }
 
